@@ -96,7 +96,7 @@ func cmdCheck(args []string) int {
 	var missing []string
 	for _, n := range p.cs.Order {
 		c := p.cs.Funcs[n]
-		if _, ok := p.funcs[n]; !ok {
+		if _, ok := p.funcs[baseName(n)]; !ok {
 			missing = append(missing, n)
 			continue
 		}
@@ -429,6 +429,9 @@ func (p *Prog) verifyFuncSafe(n string) (ex *Exec, crashed string) {
 func participates(c *Contract, id string) bool {
 	if contractMentionsProp(c, id) {
 		return true
+	}
+	if variantOf(c.Func) != "" {
+		return false // a contract variant serves only the properties it names
 	}
 	switch id {
 	case "C05":
